@@ -105,6 +105,19 @@ Theorem C06_active_taskpools_accounting : forall decls evs,
 Proof. intros decls evs. exact (i_active _ (run_inv decls evs)). Qed.
 Print Assumptions C06_active_taskpools_accounting.
 
+(* the part that does not lean on the barrier abstraction: while the completion callback of a
+   taskpool runs — on whatever thread, e.g. the communication thread of a multi-rank run, which is
+   not a thread of the barrier — active_taskpools is positive, so the master cannot see 0 before
+   the callback returned; and (C06_test_true_means_done_partial) active_taskpools = 0 alone already
+   implies that every taskpool given to the context, including those a callback added, is past its
+   callback with all tasks ended.  This is what "callback first, decrement second" in
+   parsec_taskpool_termination_detected buys (seeded/C06a swaps them; the two-rank scenarios of
+   checks/C06.py observe the consequence on the real code). *)
+Theorem C06_running_callback_keeps_context_active : forall decls evs q p,
+  nth_error (pools (run decls evs)) q = Some p -> k_st p = STermCb -> 0 < active (run decls evs).
+Proof. exact P_callback_keeps_active. Qed.
+Print Assumptions C06_running_callback_keeps_context_active.
+
 (* non-vacuity: two epochs; a PTG taskpool whose task adds a second PTG taskpool while the
    master is in the wait, whose completion callback adds a third; a DTD taskpool that gets a
    task per epoch and is waited with parsec_taskpool_wait in the second *)
